@@ -73,6 +73,14 @@ def r_rule_dependency(ck: Checker) -> None:
     ck.add("every occurrence is registered", okk and n > 0, func, app, f"unconditional append: {okk}", "")
     h = [c for c in attr_calls(func, "append") if unparse(c.func.value).startswith("self.head2rules[")]  # type: ignore[attr-defined]
     ck.need(len(h) == 1, "defining rules registered at one site")
+    hb = [c for c in attr_calls(func, "append") if unparse(c.func.value).startswith("self.head2bodies[")]  # type: ignore[attr-defined]
+    ck.need(len(hb) == 1, "defining bodies registered at one site")
+    for site, what in ((h[0], "rule"), (hb[0], "body")):
+        lp = enclosing_loop(func, site)
+        ok_all, n_it = every_iteration_reaches(ck, func, lp, site, None) if lp is not None else (False, 0)
+        ck.add(f"every defining {what} is registered (facts included)", ok_all and n_it > 0, func, site, f"`{fmt(site)}` reached in every iteration over the derivable heads: {ok_all}",
+               "consumers count the definitions (`len(get_bodies(p)) == 1`, `len(get_rules_that_derive(p)) != 1`): a fact or a second rule that is not registered makes a predicate look singly defined",
+               rule="C15.definitions")
     ck.guard("definitions are rules", func, h[0], f"{unparse(h[0].args[0])}.ast_type == ASTType.Rule", "")
     org = {st.origin.get(n_, "") for st in it.states(h[0]) for n_ in [unparse(h[0].func.value.slice)]}  # type: ignore[attr-defined]
     ck.add("definitions are keyed by head-derivable predicates", all("headderivable_predicates(" in o for o in org) and bool(org), func, h[0], f"key iterates {sorted(org)}", "")
@@ -260,7 +268,7 @@ def r_transform_args(ck: Checker) -> None:
 
 RULES = [
     Rule("C15.A.is-single", P, r_is_single),
-    Rule("C15.uses", P, r_rule_dependency),
+    Rule("C15.uses", P, r_rule_dependency, extra={p_: ("every defining",) for p_ in ("C12", "C13", "C09", "C06", "C02")}),
     Rule("C15.TABLE.good", PG, r_good_table),
     Rule("C15.G6.padding", PG, r_padding),
     Rule("C15.G.inline-minimize", PG, r_inline_minimize),
